@@ -82,4 +82,17 @@ theorem C01_source_into (D : Derive) (tg : Target) (md : Modes) (h : D.WF) (v : 
     T.intoFn D tg md v = .ok (spec.into D.sem v) ∧ T.intoTrait D tg md v = .ok (spec.into D.sem v) :=
   ⟨by rw [T.intoFn_eq D tg md h v hv, (C01_into D v).1], by rw [T.intoTrait_eq D tg md h v hv, (C01_into D v).2]⟩
 
+/-- `try_from(into(v)) == Some(v)` for the translated bodies, function and trait forms -/
+theorem C01_source_roundtrip (D : Derive) (tg : Target) (md : Modes) (h : D.WF) (v : Int) (hv : v ∈ D.vals) :
+    (T.intoFn D tg md v).bind (fun n => T.tryFromFn D tg md n) = .ok (some v) ∧
+    (T.intoTrait D tg md v).bind (fun n => T.tryFromTrait D tg md n) = .ok (some v) := by
+  have hr := h.inRange v hv
+  have hs : spec.tryFrom D.sem (spec.into D.sem v) = some v := by simp [spec.tryFrom, spec.into, hv]
+  have e1 := (C01_source_into D tg md h v hv).1
+  have e2 := (C01_source_into D tg md h v hv).2
+  have hi : spec.into D.sem v = v := rfl
+  rw [e1, e2, Res.bind_ok, Res.bind_ok, hi, (C01_source_tryFrom D tg md h v hr).1, (C01_source_tryFrom D tg md h v hr).2]
+  rw [hi] at hs
+  exact ⟨by rw [hs], by rw [hs]⟩
+
 end ET.Thm
